@@ -19,7 +19,7 @@ type refillCell struct {
 }
 
 func (c *Ctx) refillTable() []refillCell {
-	refill := c.method("postscript", "scanner", "refill")
+	refill, whole := c.refillAnchor() // whole: the refill step is written out in the function that reads a byte (ext_y1.go)
 	errF := c.fld("scanner.err")
 	var out []refillCell
 	for _, stored := range []bool{true, false} {
@@ -33,6 +33,9 @@ func (c *Ctx) refillTable() []refillCell {
 							return symV("storedErr"), true
 						}
 						return sv{k: svNil}, true
+					}
+					if v, ok := refillWholeLoad(whole, ld); ok {
+						return v, true
 					}
 					return symV("v:" + addr.s), true
 				}
@@ -73,6 +76,20 @@ func (c *Ctx) refillTable() []refillCell {
 				ev.call = func(call ssa.CallInstruction, args []sv) (sv, bool) {
 					n := callName(call)
 					if strings.HasPrefix(n, "invoke ") && strings.HasSuffix(n, ".Read") {
+						if whole {
+							// an empty buffer, a source that delivers one byte or none; when it is asked a second
+							// time (nothing delivered, no error) it delivers a byte without error: the first pass
+							// has then reported nothing
+							nb, e := int64(0), sv{k: svNil}
+							if data || cell.read {
+								nb = 1
+							}
+							if rerr && !cell.read {
+								e = symV("readErr")
+							}
+							cell.read = true
+							return sv{k: svTuple, tup: []sv{intV(nb), e}}, true
+						}
 						cell.read = true
 						e := sv{k: svNil}
 						if rerr {
@@ -81,12 +98,18 @@ func (c *Ctx) refillTable() []refillCell {
 						return sv{k: svTuple, tup: []sv{symV("n"), e}}, true
 					}
 					if n == "builtin copy" {
+						if whole {
+							return intV(0), true
+						}
 						return symV("copied"), true
 					}
 					return sv{}, false
 				}
 				ret := ev.runFunc(refill, []sv{{k: svAddr, s: "s"}})
 				cell.why = ev.why
+				if whole && len(ret) == 2 {
+					ret = ret[1:] // (byte, error): the error is what the step reports
+				}
 				if len(ret) == 1 {
 					switch {
 					case ret[0].k == svNil:
@@ -126,7 +149,7 @@ func (c *Ctx) refillTable() []refillCell {
 
 // refillRules: the delivery and stickiness clauses that concern refill, from its decision table.
 func (c *Ctx) refillRules(ruleData, ruleSticky string) {
-	refill := c.method("postscript", "scanner", "refill")
+	refill, _ := c.refillAnchor()
 	fname := c.fname(refill)
 	var dataBad, stickyBad, storeBad []string
 	for _, cl := range c.refillTable() {
